@@ -777,21 +777,23 @@ class Gen:
                 if en == "ce":
                     st["h"] = 0
                 out.append(st)
-        elif f == "C10" and E and r.random() < 0.3:
+        elif f == "C10" and E and r.random() < 0.55:
             # combined envelope stored polarization-first (or fock-first), then the Fock space is resized
             i0 = r.randrange(len(E))
             e = E[i0]
             fs, ps_ = sid(e.fock), sid(e.polarization)
             d = dims_of(e.fock)
             if self.joint_dim(w) // max(d, 1) * (d + 3) <= self.CAP:
-                out.append({"kind": "resize", "targets": [fs], "entry": "state", "dim": d + r.choice([1, 2, 3])})
+                g_ = r.choice([1, 2, 3])
+                out.append({"kind": "resize", "targets": [fs], "entry": "state", "dim": d + g_})
                 out.append({"kind": "struct", "what": "env_combine", "env": i0})
                 if r.random() < 0.7:
                     out.append({"kind": "struct", "what": "env_reorder", "env": i0, "targets": [ps_, fs]})
                 if r.random() < 0.5:
                     out.append({"kind": "struct", "what": "set_contraction", "on": False})
                     out.append({"kind": "struct", "what": "expand", "entry": "env", "targets": [fs]})
-                out.append({"kind": "resize", "targets": [fs], "entry": r.choice(["env", "env", "state"]), "dim": d + r.choice([-1, 0, 0, 1, 1, 2])})
+                # shrink, keep (a request for the current size), or grow
+                out.append({"kind": "resize", "targets": [fs], "entry": r.choice(["env", "env", "state"]), "dim": d + g_ + r.choice([-2, -1, 0, 0, 1])})
         elif f == "C10":
             # repeated displacements along one (complex) direction: the state is a superposition when
             # the cutoff for the second one is estimated
